@@ -17,6 +17,7 @@ The module records the mapping of service alias to sid
 and handles the corresponding configuration reads and writes.
 """
 import json
+import os
 import pathlib
 from typing import Optional, Dict, Any
 
@@ -45,8 +46,11 @@ def _get_service_mapping_read_and_write_function():
         if not _PROGRAM_DIR_PATH.exists():
             _PROGRAM_DIR_PATH.mkdir(parents=True)
 
-        with open(SERVICE_MAPPING_PATH, "w") as f:
+        # write to a temporary file and rename it over the table, so that a crash never leaves a truncated table
+        tmp_path = SERVICE_MAPPING_PATH.with_name(SERVICE_MAPPING_PATH.name + ".tmp")
+        with open(tmp_path, "w") as f:
             json.dump(new_mapping, f)
+        os.replace(tmp_path, SERVICE_MAPPING_PATH)
 
     return _read_service_mapping, _write_service_mapping
 
